@@ -277,3 +277,149 @@ End SiftPrims.
 Arguments optsig {V}. Arguments gni_args {V}. Arguments gni_env0 {V}. Arguments gni_render {V}.
 Arguments sigs {V}. Arguments cols_of {V}. Arguments mat_val {V}. Arguments cap_val {V}.
 Arguments sift_args {V}. Arguments io_ok {V}. Arguments sift_env0 {V}. Arguments sift_render {V}.
+
+(* ============================================================================================== *)
+(* mask_sift: the outer loop (the option pre-processing above it is not translated; its results -    *)
+(* X made a column, mask_freqs an array, max_imfs possibly reduced, sd - are inputs here)            *)
+(* ============================================================================================== *)
+(* the three documented values of mask_amp_mode (any other leaves sd unbound above the loop) *)
+Inductive amp_mode3 := MRatioImf | MRatioSig | MAbs.
+Definition mode_str (m : amp_mode3) : string :=
+  match m with MRatioImf => "ratio_imf" | MRatioSig => "ratio_sig" | MAbs => "abs" end.
+Definition is_ratio_imf (m : amp_mode3) : bool := match m with MRatioImf => true | _ => false end.
+
+Section MaskPrims.
+  Variable V : Type.
+  Variable vzero : V.
+  Variable vadd vsub : V -> V -> V.
+  Variable small : V -> bool.                  (* np.abs(next_imf).sum() < sift_thresh *)
+  (* get_next_imf_mask(residual, z, amp, nphases=.., nprocesses=.., imf_opts=.., envelope_opts=..,
+     extrema_opts=..) as ONE opaque primitive: Some (imf, continue_flag), or None when it raises *)
+  Variable gm : V -> val V -> val V -> option (V * bool).
+  Variable fs : list (val V).                  (* the entries of mask_freqs *)
+  Variable mode : amp_mode3.                   (* mask_amp_mode *)
+  Variable ma : option (list (val V)).         (* mask_amp: None = a single number, Some l = array_like
+                                                  (of numbers: each entry is wrapped as an opaque value) *)
+  Variable sd0 : val V.                        (* sd as initialised above the loop: X.std() or 1 *)
+
+  Definition amp_entry (x : val V) : val V := VOpaque "mask_amp" [x].
+  Definition ma_val : val V :=
+    match ma with None => VOpaque "mask_amp" [] | Some l => VList (map amp_entry l) end.
+
+  (* sd as used in layer [layer], after the columns acc *)
+  Definition sd_at (layer : nat) (acc : list V) : val V :=
+    if is_ratio_imf mode && (0 <? layer)%nat then VOpaque "std" [VSig (last acc vzero)] else sd0.
+
+  (* amp = mask_amp * sd, or mask_amp[imf_layer] * sd (None: IndexError) *)
+  Definition amp_at (layer : nat) (acc : list V) : option (val V) :=
+    match ma with
+    | None => Some (VOpaque "amp" [VOpaque "mask_amp" []; sd_at layer acc])
+    | Some l => match nth_error l layer with
+                | Some a => Some (VOpaque "amp" [amp_entry a; sd_at layer acc])
+                | None => None
+                end
+    end.
+
+  (* the per-layer extraction peel_loop is run with (compare MaskSift.layer_extract) *)
+  Definition mask_extract : nat -> list V -> V -> gni_result V :=
+    fun layer acc r =>
+      match amp_at layer acc, nth_error fs layer with
+      | Some amp, Some z => match gm r z amp with Some (p, fl) => Imf p fl 0 | None => ConvergeError 0 end
+      | _, _ => ConvergeError 0                       (* IndexError *)
+      end.
+
+  Definition mask_table : list (string * handler V) :=
+    [ ("X.copy()", sig_identity);
+      ("imf[:, -1].std()",
+        fun args kw => match args, kw with
+                       | [m], [] => match cols_of m with
+                                    | Some l => Ok (VOpaque "std" [VSig (last l vzero)])
+                                    | None => Bad
+                                    end
+                       | _, _ => Bad
+                       end);
+      ("np.ndim",                                (* a single number, or array_like *)
+        fun args kw => match args, kw with
+                       | [v], [] => if is_opaque0 v "mask_amp" then Ok (VNat 0)
+                                    else match v with VList _ => Ok (VNat 1) | _ => Bad end
+                       | _, _ => Bad
+                       end);
+      ("*", fun args kw => match args, kw with [a; sd], [] => Ok (VOpaque "amp" [a; sd]) | _, _ => Bad end);
+      ("get_next_imf_mask",
+        fun args kw =>
+          match args, kw with
+          | [VSig r; z; amp], [_; _; _; _; _] =>
+              if keys_are kw ["nphases"; "nprocesses"; "imf_opts"; "envelope_opts"; "extrema_opts"] then
+                match gm r z amp with
+                | Some (p, fl) => Ok (VList [VSig p; VBool fl])
+                | None => Exc "EMDSiftCovergeError"
+                end
+              else Bad
+          | _, _ => Bad
+          end);
+      ("np.concatenate",
+        fun args kw =>
+          match args, kw with
+          | [VList [a; b]], [(k, VNat 1)] =>
+              if String.eqb k "axis" then
+                match cols_of a, cols_of b with
+                | Some la, Some lb => Ok (VOpaque "matrix" (map VSig (la ++ lb)))
+                | _, _ => Bad
+                end
+              else Bad
+          | _, _ => Bad
+          end);
+      ("imf.sum(axis=1)[:, None]",
+        fun args kw => match args, kw with
+                       | [m], [] => match cols_of m with
+                                    | Some l => Ok (VSig (vsum V vzero vadd l))
+                                    | None => Bad
+                                    end
+                       | _, _ => Bad
+                       end);
+      ("-", fun args kw => match args, kw with [VSig a; VSig b], [] => Ok (VSig (vsub a b)) | _, _ => Bad end);
+      ("np.abs(next_imf).sum()",
+        fun args kw => match args, kw with [VSig x], [] => Ok (VOpaque "abs_sum" [VSig x]) | _, _ => Bad end);
+      ("<", fun args kw =>
+              match args, kw with
+              | [VOpaque t [VSig x]; th], [] =>
+                  if String.eqb t "abs_sum" && is_opaque0 th "sift_thresh" then Ok (VBool (small x)) else Bad
+              | _, _ => Bad
+              end) ].
+
+  Definition mask_prims : prims V := prims_of mask_table.
+
+  (* the other parameters, which the loop only passes on: any values *)
+  Record mask_rest := { r_step_factor : val V; r_nphases : val V; r_nprocesses : val V; r_verbose : val V;
+                        r_imf_opts : val V; r_envelope_opts : val V; r_extrema_opts : val V }.
+
+  (* the parameters of mask_sift in the order of the def line, as they stand when the loop is reached;
+     max_imfs is at least 1 there (it is None or S k) *)
+  Definition mask_args (k : option nat) (rmf : bool) (X : V) (o : mask_rest) : list (val V) :=
+    [ VSig X;                          (* X *)
+      ma_val;                          (* mask_amp *)
+      VStr (mode_str mode);            (* mask_amp_mode *)
+      VList fs;                        (* mask_freqs *)
+      r_step_factor o;                 (* mask_step_factor *)
+      VBool rmf;                       (* ret_mask_freq *)
+      cap_val (option_map S k);        (* max_imfs *)
+      VOpaque "sift_thresh" [];        (* sift_thresh *)
+      r_nphases o; r_nprocesses o; r_verbose o; r_imf_opts o; r_envelope_opts o; r_extrema_opts o ].
+
+  (* the frame when the translated region is entered: the parameters and sd *)
+  Definition mask_entry : list string := params_mask_sift ++ ["sd"].
+  Definition mask_names : list string := Eval cbv in assigned prog_mask_sift (params_mask_sift ++ ["sd"]).
+
+  Definition mask_env0 k rmf X o : env V :=
+    frame mask_entry mask_names (mask_args k rmf X o ++ [sd0]).
+
+  (* how the model's run shows at the Python level; the model has one "raised" for both exceptions *)
+  Definition mask_agrees (rmf : bool) (o : outcome V) (r : list V * exit_flags) : Prop :=
+    let (acc, fl) := r in
+    if out_of_fuel fl then o = OutOfFuel
+    else if raised fl then o = Raise "EMDSiftCovergeError" \/ o = Raise "IndexError"
+    else o = Return (if rmf then VList [mat_val acc; VList fs] else mat_val acc).
+End MaskPrims.
+
+
+Arguments mask_agrees {V}.
